@@ -74,6 +74,7 @@ structure TopoFacts (p : Prog) (owner : List (Nat × Nat)) (gt : List Nat) : Pro
 structure SInv (p : Prog) (owner : List (Nat × Nat)) (S : ScopeOf) (done : List Nat) : Prop where
   val : ∀ v c, S.get v = some c → c ∈ done
   dfn : ∀ v g, g ∈ done → v ∈ p.postIn g → ∃ c, S.get v = some c
+  wit : ∀ v c, S.get v = some c → ∃ g ∈ done, v ∈ p.postIn g
   low : ∀ v c, S.get v = some c →
     LowestP (parent owner S) (fun g => g ∈ done ∧ v ∈ p.postIn g) c
   tree : done = [] ∨ ∃ d, TreeOn (· ∈ done) (parent owner S) d 0 ∧ ∀ x ∈ done, d x < done.length
@@ -270,7 +271,7 @@ theorem step_graph (p : Prog) (hwf : WF p) (owner : List (Nat × Nat)) (gt : Lis
     apply parent_agree
     intro o ho
     exact hA _ (howner x hx o ho)
-  refine ⟨?_, ?_, ?_, ?_⟩
+  refine ⟨?_, ?_, ?_, ?_, ?_⟩
   · intro v c hc
     by_cases hv : v ∈ p.postIn g
     · obtain ⟨c2, h2, hD, _⟩ := hB v hv
@@ -286,6 +287,12 @@ theorem step_graph (p : Prog) (hwf : WF p) (owner : List (Nat × Nat)) (gt : Lis
       · exact hS.dfn v g' h1 hreach
       · have : g' = g := by simpa using h1
         subst this; exact absurd hreach hv
+  · intro v c hc
+    by_cases hv : v ∈ p.postIn g
+    · exact ⟨g, List.mem_append_right _ (by simp), hv⟩
+    · rw [hA v hv] at hc
+      obtain ⟨g', hg', hr⟩ := hS.wit v c hc
+      exact ⟨g', List.mem_append_left _ hg', hr⟩
   · intro v c hc
     by_cases hv : v ∈ p.postIn g
     · obtain ⟨c2, h2, hD, hlow⟩ := hB v hv
@@ -324,6 +331,6 @@ theorem scope_fold (p : Prog) (hwf : WF p) (owner : List (Nat × Nat)) (gt : Lis
 
 theorem sinv_empty (p : Prog) (owner : List (Nat × Nat)) : SInv p owner [] [] :=
   ⟨fun v c h => (by simp [ScopeOf.get] at h), fun v g hg => (by cases hg),
-   fun v c h => (by simp [ScopeOf.get] at h), Or.inl rfl⟩
+   fun v c h => (by simp [ScopeOf.get] at h), fun v c h => (by simp [ScopeOf.get] at h), Or.inl rfl⟩
 
 end BuildAlg
